@@ -2,7 +2,7 @@
 import glob
 import os
 
-from . import core, viewprog
+from . import core, viewprog, vmcheck
 
 PID = "C01"
 
@@ -106,6 +106,11 @@ def run(tier, seed, replay=None):
     impl_text, crashes = core.run_harness(exe, prog_text)
     n_failing = classify_and_report(res, exe, prog_text, obs_text, impl_text, crashes)
     proof_verdict(res, PID, coq, n_failing)
+    n_vm, vm_bad = vmcheck.run(p, o, 40 if tier == "quick" else 600)
+    if vm_bad:
+        path = core.write_replay(PID, "", {"property": PID, "found-by": "correspondence:extracted-model-vs-vm_compute",
+                                           "log": "\n".join(vm_bad[:10])})
+        res.violation(path, "extracted model disagrees with vm_compute", no_input=True)
     n_cases = len(core.split_cases(prog_text))
     samples = [b for _c, b in core.split_cases(p)[:400] if b.count("\nop ") >= 3][:2]
     res.coverage.update({
@@ -120,6 +125,7 @@ def run(tier, seed, replay=None):
         "observation_lines_compared": obs_text.count("\n"),
         "address_probes": obs_text.count("\nP "),
         "corpus_cases": n_corpus,
+        "cases_reevaluated_inside_coq_by_vm_compute": n_vm,
         "disagreeing_cases": n_failing,
         "not_exercised": ["taked() for D > 1 (does not compile at the pinned commit)", "broadcasted() (no size; lemma only)",
                           "call syntax with more than 3 arguments other than full index tuples"],
